@@ -251,6 +251,24 @@ def check_basic(res, name):
         if FP.fp(d) != before:
             res.violation(ID, 'copy_shares_state', {'op': 'basic', 'name': name, 'sub': fld + '.copy'},
                           f'{type(r3).__name__}.{fld}.copy() shares nested mutable state with the original: {dict(d)!r}')
+    # metadata entries may hold arrays (a dash pattern, a spectral range): equality is equality of the entries, shape included
+    if not name.startswith(('compound', 'sky_compound')):
+        def with_entry(field, key, val):
+            q = pool.make(name)
+            getattr(q, field)[key] = val
+            return q
+        for field, key in (('visual', 'dashes'), ('meta', 'range')):
+            sub = {'op': 'basic', 'name': name, 'sub': f'{field}[{key!r}] array'}
+            a = with_entry(field, key, np.array([4.0, 4.0]))
+            _eq_calls(res, sub, a, with_entry(field, key, np.array([4.0, 4.0])), True, f'{field}[{key!r}] = the same two-element array on both sides')
+            try:
+                _eq_calls(res, sub, a, a.copy(), True, f'a region whose {field}[{key!r}] is a two-element array and its copy')
+            except Exception as exc:      # noqa: BLE001
+                res.violation(ID, 'copy_raises', sub, f'copy raised {type(exc).__name__}: {exc}')
+            _eq_calls(res, sub, a, with_entry(field, key, np.array([4.0, 5.0])), False, f'{field}[{key!r}] arrays differing in one element')
+            _eq_calls(res, sub, a, with_entry(field, key, np.array([4.0])), False, f'{field}[{key!r}] arrays [4, 4] and [4] (same value, other shape)')
+            _eq_calls(res, sub, a, with_entry(field, key, 4.0), False, f'{field}[{key!r}] array [4, 4] and the number 4')
+            _eq_calls(res, sub, a, with_entry(field, key, np.array([4.0, 4.0, 4.0])), False, f'{field}[{key!r}] arrays of two and of three equal elements')
     if name == 'regpoly':
         import regions
         a = regions.RegularPolygonPixelRegion(r.center, 5, r.radius, angle=r.angle)
